@@ -23,6 +23,7 @@ type Val struct {
 	Clo    *Closure   // function values with known target
 	Global string     // value loaded from this global (pkgpath.Name), for calls through func vars
 	FnField string    // function value loaded from this struct field ("pkgpath::T.f"), for fieldfn contracts
+	Boxed  *Val       // interface value made from this (statically known) value: used by library intrinsics
 	Typ    types.Type // Go type (may be nil for spec-only values)
 	Sort   string     // SMT sort for spec-only values (ghost maps, spec ints)
 }
@@ -252,7 +253,7 @@ func (vc *VC) sortOf(t types.Type) string {
 		case u.Info()&types.IsInteger != 0:
 			return "Int"
 		case u.Info()&types.IsString != 0:
-			return "String"
+			return "Str"
 		case u.Info()&types.IsFloat != 0:
 			return "Real"
 		}
@@ -360,8 +361,8 @@ func (vc *VC) zeroOfSort(sort string, t types.Type) string {
 		return "0"
 	case "Real":
 		return "0.0"
-	case "String":
-		return "\"\""
+	case "Str":
+		return "|s:|"
 	case "Slice":
 		return "(mk_slice 0 0 0 0)"
 	}
@@ -486,6 +487,9 @@ func (vc *VC) rangeAssume(v Val) string {
 	}
 	switch u := v.Typ.Underlying().(type) {
 	case *types.Basic:
+		if u.Info()&types.IsString != 0 {
+			return fmt.Sprintf("(>= (str.len %s) 0)", v.T)
+		}
 		lo, hi, ok := intRange(u)
 		if ok {
 			if lo != "" && hi != "" {
@@ -597,6 +601,11 @@ func (vc *VC) havoc(st *State, comp string) string {
 	if comp == "$next" { // the allocation counter only grows
 		vc.emit(fmt.Sprintf("(assert (>= %s %s))", n, vc.get(st, comp)))
 	}
+	if strings.HasPrefix(comp, "ghost.") {
+		if g := vc.eng.specs.Ghosts[strings.TrimPrefix(comp, "ghost.")]; g != nil && g.Monotone {
+			vc.emit(fmt.Sprintf("(assert (>= %s %s))", n, vc.get(st, comp)))
+		}
+	}
 	st.heap[comp] = n
 	return n
 }
@@ -631,18 +640,47 @@ func (vc *VC) fnName() string {
 
 // query builds the SMT-LIB text for an obligation.
 func (vc *VC) query(o *Obligation) string {
-	var sb strings.Builder
-	for _, l := range vc.lines[:o.NLines] {
-		sb.WriteString(l)
-		sb.WriteByte('\n')
+	var body strings.Builder
+	for _, l := range vc.lines[2:o.NLines] {
+		body.WriteString(l)
+		body.WriteByte('\n')
 	}
-	sb.WriteString(fmt.Sprintf("(assert %s)\n", o.Pc))
+	body.WriteString(fmt.Sprintf("(assert %s)\n", o.Pc))
 	if o.Vacuity {
-		sb.WriteString(fmt.Sprintf("(assert %s)\n", o.Goal))
+		body.WriteString(fmt.Sprintf("(assert %s)\n", o.Goal))
 	} else {
-		sb.WriteString(fmt.Sprintf("(assert (not %s))\n", o.Goal))
+		body.WriteString(fmt.Sprintf("(assert (not %s))\n", o.Goal))
 	}
-	sb.WriteString("(check-sat)\n(get-model)\n")
+	body.WriteString("(check-sat)\n(get-model)\n")
+	text := strOps.Replace(body.String())
+	// string literals used in this query: distinct constants with known lengths
+	lits := map[string]bool{}
+	for _, m := range strLitRe.FindAllStringSubmatch(text, -1) {
+		lits[m[1]] = true
+	}
+	lits[""] = true
+	var names []string
+	for h := range lits {
+		names = append(names, h)
+	}
+	sort.Strings(names)
+	var sb strings.Builder
+	sb.WriteString(vc.lines[0] + "\n" + vc.lines[1] + "\n")
+	sb.WriteString(strPrelude)
+	for _, ax := range strAxioms {
+		if strings.Contains(text, ax[0]) {
+			sb.WriteString(ax[1])
+		}
+	}
+	var all []string
+	for _, h := range names {
+		sb.WriteString(fmt.Sprintf("(declare-const |s:%s| Str)\n(assert (= (u.len |s:%s|) %d))\n", h, h, len(h)/2))
+		all = append(all, "|s:"+h+"|")
+	}
+	if len(all) > 1 {
+		sb.WriteString("(assert (distinct " + strings.Join(all, " ") + "))\n")
+	}
+	sb.WriteString(text)
 	return sb.String()
 }
 
@@ -1079,22 +1117,39 @@ func (vc *VC) boxFns(t types.Type) (box, unbox string) {
 	return
 }
 
+// Go strings are modelled by an uninterpreted sort Str (no SMT string theory): a literal is a constant named
+// after its bytes (hex), literals are pairwise distinct and know their length; see query() for the declarations.
 func smtStr(s string) string {
-	var sb strings.Builder
-	sb.WriteByte('"')
-	for _, r := range s {
-		switch {
-		case r == '"':
-			sb.WriteString("\"\"")
-		case r < 32 || r > 126 || r == '\\':
-			sb.WriteString(fmt.Sprintf("\\u{%x}", r))
-		default:
-			sb.WriteRune(r)
-		}
-	}
-	sb.WriteByte('"')
-	return sb.String()
+	return fmt.Sprintf("|s:%x|", []byte(s))
 }
+
+var strLitRe = regexp.MustCompile(`\|s:([0-9a-f]*)\|`)
+
+// strPrelude: declarations of the string model; the string-theory operator names used by the generator are
+// mapped to these uninterpreted functions when a query is printed.
+const strPrelude = `(declare-sort Str 0)
+(declare-fun u.len (Str) Int)
+(declare-fun u.at (Str Int) Str)
+(declare-fun u.cat (Str Str) Str)
+(declare-fun u.lt (Str Str) Bool)
+(declare-fun u.le (Str Str) Bool)
+(declare-fun u.sub (Str Int Int) Str)
+(declare-fun u.code (Str) Int)
+(declare-fun u.fromcode (Int) Str)
+`
+
+// axioms of the string model, added to a query only when it mentions the operation (quantified axioms make
+// the solvers answer unknown instead of sat on the vacuity cover queries)
+var strAxioms = [][2]string{
+	{"(u.cat ", "(assert (forall ((a Str) (b Str)) (! (= (u.len (u.cat a b)) (+ (u.len a) (u.len b))) :pattern ((u.cat a b)))))\n"},
+	{"(u.le ", "(assert (forall ((a Str) (b Str)) (! (= (u.le a b) (or (u.lt a b) (= a b))) :pattern ((u.le a b)))))\n"},
+	{"(u.lt ", "(assert (forall ((a Str) (b Str)) (! (not (and (u.lt a b) (u.lt b a))) :pattern ((u.lt a b)))))\n"},
+}
+
+const strPreludeEnd = ``
+
+var strOps = strings.NewReplacer("(str.len ", "(u.len ", "(str.at ", "(u.at ", "(str.++ ", "(u.cat ", "(str.< ", "(u.lt ", "(str.<= ", "(u.le ",
+	"(str.substr ", "(u.sub ", "(str.to_code ", "(u.code ", "(str.from_code ", "(u.fromcode ")
 
 func smtInt(n int64) string {
 	if n < 0 {
